@@ -367,7 +367,7 @@ func run(r *evid.Run) {
 	// vacuity guards: every clause of the property must have been exercised
 	for _, k := range []string{
 		"enc_roundtrips_ok", "enc_compressed_magic_verified", "enc_with_custom_options", "enc_transcodings_ok", "enc_imageflag_cases",
-		"enc_injected_unknown_ok", "pack_equal", "sel_build_proper_subset", "sel_build_excluded_file_back_as_import",
+		"enc_injected_unknown_ok", "pack_equal", "pack_equal_unnormalized_entry_names", "sel_build_proper_subset", "sel_build_excluded_file_back_as_import",
 		"sel_build_empty_target_both_fail", "sel_lint_with_annotations", "sel_lint_annotations_narrowed", "sel_breaking_with_annotations",
 		"sel_breaking_annotations_narrowed", "api_strip_cases",
 	} {
